@@ -27,7 +27,7 @@ P = {
          "theorem (printer = rendering of a grammatical SPath with equal semantics) + metamorphic oracle", "rdflib's SPARQL engine trusted to implement SPARQL; the *_sparql evaluator twins are compared on the code, not proved; unambiguity of the SPARQL path grammar is assumed"),
  "C08": ("proof", "§6 C08", "caller_unchanged: invariant over the pipeline op sequence for every heap, config and failure point; exhaustive config enumeration with fault injection on the real code",
          "theorem (invariant by induction over operations) + exhaustive fault enumeration", "Lean kernel; heap model of Validator.run / RuleExpandRunner.run"),
- "C09": ("proof", "§6 C09 / §10", "focus_order_irrelevant (verdict and result set of a shape evaluation are a function of the set of focus nodes: every Core / SPARQL component, nested evaluations included), order-invariance of value nodes, focus nodes and of the graph-reading Core components, picks_irrelevant; hash seeds, insertion orders, relabellings and prefixes sampled on the real code in separate processes",
+ "C09": ("proof", "§6 C09 / §10", "data_graph_order_irrelevant (a complete run over two data graphs with the same triples, in any insertion order and multiplicity, returns the same verdict and results: every component incl. count-based ones, loops, nested evaluations, focus resolution), focus_order_irrelevant (verdict and result set of a shape evaluation are a function of the set of focus nodes: every Core / SPARQL component, nested evaluations included), order-invariance of value nodes, focus nodes and of the graph-reading Core components, picks_irrelevant; hash seeds, insertion orders, relabellings and prefixes sampled on the real code in separate processes",
          "theorem + sampled process-level determinism", "CPython hash randomisation cannot be exhibited by the model; it is sampled; invariance of the complete run under triple permutation / blank-node relabelling is _partial"),
  "C10": ("proof", "§6 C10", "history_independent via the Clean invariant of the global-state machine; long-lived vs one-shot worker on the real code",
          "theorem (invariant over call histories) + differential processes", "allocator address reuse is modelled as nondeterministic id equality"),
@@ -41,7 +41,7 @@ P = {
          "theorem over an opaque closure + metamorphic oracle", "owlrl is not verified"),
  "C15": ("proof", "§6 C15", "rules model vs reference procedure", "theorem + differential correspondence", "CONSTRUCT engine is a parameter"),
  "C16": ("proof", "§6 C16 / §10", "exit-code table theorems over the regenerated except chain and exception hierarchy; component_raw_classes_partial (the raw exception classes a Core / SPARQL component of the model can let through, enumerated); malformed-parameter kind table enumerated on the real code (API and command line)",
-         "theorem over regenerated tables + exhaustive kind enumeration", "the API clause is proved at component level only (paths, targets, advanced mode: enumeration on the code)"),
+         "theorem over regenerated tables + exhaustive kind enumeration", "proved for the data graph's triple order and the iteration order of focus / value node sets; shapes-graph order, blank-node relabelling, prefix bindings and advanced mode are decided on the code only (multi-process oracle); the SPARQL engine's tables are parameters"),
  "C17": ("proof", "§6 C17", "advanced targets / functions / expressions glue with opaque engine", "theorem over an opaque engine + differential correspondence", ""),
  "C18": ("other", "§6 C18", "proof of pySHACL's glue (same report object serialised; exit status); round-trip of rdflib's serialisers is a hypothesis validated by sampling", "theorem for the glue + sampled round-trip", "rdflib parsers/serialisers not verified"),
  "C19": ("proof", "§6 C19", "total model = the code's own termination argument; limit_only_truncates_loudly (for limits L <= L' the run under L is the run under L' or the 'too deep' failure: simulation through every component, loop and nested evaluation), report_exact_below_limit, at_limit_loud; back-out silent on fresh shapes; depth x limit sweep under a wall-clock limit on the real code",
